@@ -922,11 +922,24 @@ static void names_case(uint64_t i, uint64_t seed)
     }
     else
     {
-      // a valid pair was refused: attribute it to the part this case varies
-      if (focus == kFocusUnit || (focus == kFocusBoth && unit_tail_matters && !name_tail_matters))
-        R.violation("unit-valid-iff-created", ucls, d);
+      // a valid pair was refused: which part?  Control: the same name (same form of view) with
+      // the trivially valid empty unit.  If that one is created the name was fine.
+      Instr ctl;
+      {
+        Arg an(name, name_exact, ntail), au("", unit_exact);
+        ctl.create(*meter, kCounterK, false, an.view(), "", au.view());
+        an.kill(r);
+      }
+      bool name_ok = false;
+      if (ctl.non_null())
+      {
+        ctl.record(1, nullptr);
+        name_ok = !collect(*reader).empty();
+      }
+      if (name_ok)
+        R.violation("unit-valid-iff-created", ucls, d + " (control with the empty unit was created)");
       else
-        R.violation("name-valid-iff-created", ncls, d);
+        R.violation("name-valid-iff-created", ncls, d + " (control with the empty unit was refused too)");
     }
   }
   if (created && (want || dontcare))
@@ -1436,7 +1449,23 @@ static void check_collection(const ViewCase &c,
                       std::to_string(round + 1) + "; ";
   std::vector<bool> seen(exp.size(), false);
   // which (instrument, view) pair with a non-matching view predicts this stream?
-  auto explain_nonmatching = [&](const Stream &g, int meter, int only_instr) -> const char * {
+  auto field_same = [](const ExpStream &a, const ExpStream &b, const std::string &f) {
+    if (f == "description")
+      return a.desc == b.desc;
+    if (f == "aggregation")
+      return a.pkind == b.pkind;
+    if (f == "monotonic")
+      return a.mono == b.mono;
+    if (f == "boundaries")
+      return a.bounds == b.bounds;
+    if (f == "record-min-max")
+      return a.minmax == b.minmax;
+    if (f == "attribute-filter")
+      return a.has_filter == b.has_filter && a.allowed == b.allowed;
+    return true;
+  };
+  // `dev` = the field in which the stream deviates from what was expected ("" = its name)
+  auto explain_nonmatching = [&](const Stream &g, int meter, int only_instr, const std::string &dev) -> const char * {
     for (size_t ii = 0; ii < c.instrs.size(); ++ii)
     {
       auto &in = c.instrs[ii];
@@ -1447,8 +1476,9 @@ static void check_collection(const ViewCase &c,
         MatchResult m = view_match(c.views[vi], in, c.meters[in.meter]);
         if (m.tri != kNo)
           continue;
-        ExpStream p = make_exp(static_cast<int>(ii), in, static_cast<int>(vi), &c.views[vi]);
-        if (p.name == g.name && shape_diff(p, g).empty())
+        ExpStream p  = make_exp(static_cast<int>(ii), in, static_cast<int>(vi), &c.views[vi]);
+        ExpStream p0 = make_exp(static_cast<int>(ii), in, -1, nullptr);
+        if (p.name == g.name && shape_diff(p, g).empty() && (dev.empty() ? p.name != p0.name : !field_same(p, p0, dev)))
           return m.field;
       }
     }
@@ -1471,7 +1501,7 @@ static void check_collection(const ViewCase &c,
         ei = static_cast<int>(k);
     if (ei < 0)
     {
-      const char *f = explain_nonmatching(g, meter, -1);
+      const char *f = explain_nonmatching(g, meter, -1, "");
       if (f)
         out.push_back({"view-applied", std::string("non-matching:") + f, where + "stream of a view whose selector does not match: " + show_stream(g)});
       else
@@ -1491,7 +1521,7 @@ static void check_collection(const ViewCase &c,
     if (!d.empty())
     {
       // (everything but the filter carries the expected view's settings: no other view explains it better)
-      const char *f = d == "attribute-filter" ? nullptr : explain_nonmatching(g, meter, e.instr);
+      const char *f = d == "attribute-filter" ? nullptr : explain_nonmatching(g, meter, e.instr, d);
       if (f)
         out.push_back({"view-applied", std::string("non-matching:") + f,
                        where + "instrument " + in.name + " carries the shape of a view whose selector does not match: " + show_stream(g)});
